@@ -166,7 +166,7 @@ pub fn child_shard(shard: usize, nshards: usize, upto: Option<usize>, refs_file:
 }
 
 fn spawn_self(args: &[String]) -> Result<String, String> {
-    let exe = std::env::current_exe().unwrap();
+    let exe = crate::run::child_exe();
     let out = Command::new(exe).args(args).output().map_err(|e| e.to_string())?;
     if !out.status.success() {
         return Err(format!("child {:?} exited with {:?}: {}", args, out.status, String::from_utf8_lossy(&out.stderr).chars().take(200).collect::<String>()));
